@@ -19,6 +19,7 @@ type Env struct {
 	vars    map[string]Term
 	pkgName string
 	head    *State // state at the head of the current loop iteration (backedge clauses)
+	at      *ssa.BasicBlock // program point used to pick among same-named locals
 }
 
 func (e *Env) with(name string, t Term) *Env {
@@ -246,6 +247,23 @@ func (e *Env) eval(x SExpr) Term {
 		n.st = e.old
 		return n.eval(x.X)
 	case SCall:
+		if x.Fun == "as" && len(x.Args) == 2 {
+			// as(TypeName, p): p viewed as a pointer to TypeName, where one of the two struct types
+			// is the first field of the other (the unsafe casts of the node types)
+			id, ok := x.Args[0].(SIdent)
+			if !ok {
+				e.fail("as(TypeName, pointer)")
+			}
+			to := fc.resolveType(e.pkgName, id.Name)
+			pv := e.eval(x.Args[1])
+			from := elemTypeOfPtr(pv.T)
+			if from == nil || to.T == nil {
+				e.fail("as(%s, ...): not a pointer to a struct", id.Name)
+			}
+			r := fc.unsafeCast(nil, pv, from, to.T) // no assumption: the view is meaningful only where the kind matches
+			r.T = types.NewPointer(to.T)
+			return r
+		}
 		if x.Fun == "atHead" && len(x.Args) == 1 {
 			if e.head == nil {
 				e.fail("atHead() is only allowed in loop backedge clauses")
@@ -340,7 +358,7 @@ func (e *Env) ident(name string) Term {
 				return t
 			}
 		}
-		if a := e.fr.allocByName(name); a != nil {
+		if a := e.fr.allocByName(name, e.at); a != nil {
 			return e.fr.loadAlloc(e.st, a)
 		}
 		// captured variable of a closure: the free variable is a pointer to it
